@@ -101,6 +101,7 @@ fn main() {
         Some("mk-hashtwins") if args.len() >= 2 => hashgen::main(&args[1]),
         Some("digest") if args.len() >= 2 => engines::text::digest_main(&args[1]),
         Some("layoutprobe") if args.len() >= 2 => engines::text::layoutprobe_main(&args[1]),
+        Some("streamprobe") if args.len() >= 3 => engines::front::streamprobe_main(&args[1], &args[2]),
         Some("stress-dump") if args.len() >= 3 => {
             let s = engines::stress::stress_case(Tier::Quick, seed_from_env(), args[1].parse().unwrap());
             std::fs::write(&args[2], &s.text).unwrap();
